@@ -486,6 +486,9 @@ FilterGradientBPP (rfbClient* client, int srcx, int srcy, int numRows)
   }
 #endif
 
+  /* the differences arrive in the byte order of the client's pixel format */
+#define GRADIENT_SRC(i) (NEED_SWAP ? (CARDBPP)CONCAT2E(Swap,BPP)(src[i]) : src[i])
+
   max[0] = client->format.redMax;
   max[1] = client->format.greenMax;
   max[2] = client->format.blueMax;
@@ -498,7 +501,7 @@ FilterGradientBPP (rfbClient* client, int srcx, int srcy, int numRows)
 
     /* First pixel in a row */
     for (c = 0; c < 3; c++) {
-      pix[c] = (uint16_t)(((src[y*client->rectWidth] >> shift[c]) + thatRow[c]) & max[c]);
+      pix[c] = (uint16_t)(((GRADIENT_SRC(y*client->rectWidth) >> shift[c]) + thatRow[c]) & max[c]);
       thisRow[c] = pix[c];
     }
     dst[y*client->width] = RGB_TO_PIXEL(BPP, pix[0], pix[1], pix[2]);
@@ -512,13 +515,14 @@ FilterGradientBPP (rfbClient* client, int srcx, int srcy, int numRows)
 	} else if (est[c] < 0) {
 	  est[c] = 0;
 	}
-	pix[c] = (uint16_t)(((src[y*client->rectWidth+x] >> shift[c]) + est[c]) & max[c]);
+	pix[c] = (uint16_t)(((GRADIENT_SRC(y*client->rectWidth+x) >> shift[c]) + est[c]) & max[c]);
 	thisRow[x*3+c] = pix[c];
       }
       dst[y*client->width+x] = RGB_TO_PIXEL(BPP, pix[0], pix[1], pix[2]);
     }
     memcpy(thatRow, thisRow, client->rectWidth * 3 * sizeof(uint16_t));
   }
+#undef GRADIENT_SRC
 }
 
 static int
